@@ -821,9 +821,9 @@ func (x *Env) scanBlocks(q []byte, count bool) (v *big.Int, used int, ok bool) {
 //     yet used, reduced mod n; using it consumes it;
 //   - if the source reports an error at a moment when no such block is
 //     available, the call must panic - except for an error delivered together
-//     with the bytes that complete a 32-byte block, which a block-wise reader
-//     cannot see; it may panic on any error; it must not panic when the source
-//     reported none;
+//     with all the bytes that read request asked for, which an
+//     io.ReadFull-style consumer cannot see; it may panic on any error; it must
+//     not panic when the source reported none;
 //   - after a panic, complete blocks that were delivered but not used may be
 //     kept or dropped (both are followed); the partial block that was being
 //     assembled when the source failed is dropped: a later value must not be
@@ -849,6 +849,7 @@ func (x *Env) afterRandom(ts *taskState, oi int, op *Op, rdStart int, out implOu
 	type errAt struct {
 		off  int
 		n    int
+		want int
 		name string
 	}
 	var delivered []byte
@@ -864,7 +865,7 @@ func (x *Env) afterRandom(ts *taskState, oi int, op *Op, rdStart int, out implOu
 		}
 		delivered = append(delivered, rec.Data...)
 		if rec.Err != nil {
-			errs = append(errs, errAt{len(delivered), rec.N, rec.Err.Error()})
+			errs = append(errs, errAt{len(delivered), rec.N, rec.Want, rec.Err.Error()})
 		}
 	}
 	var got *big.Int
@@ -919,10 +920,11 @@ func (x *Env) afterRandom(ts *taskState, oi int, op *Op, rdStart int, out implOu
 		full := append(append([]byte(nil), q...), delivered...)
 		hard := false
 		for _, e := range errs {
-			// an error delivered together with the bytes that complete a block is
-			// invisible to a block-wise reader (io.ReadFull reports success):
-			// acting on it or not are both in spec
-			soft := e.n > 0 && (len(q)+e.off)%32 == 0
+			// an error delivered together with all the bytes the read asked for is
+			// invisible to an io.ReadFull-style consumer (it reports success for
+			// that request, whether the request was for a whole block or for a
+			// piece of one): acting on it or not are both in spec
+			soft := e.n > 0 && e.n == e.want
 			if _, _, ok := x.scanBlocks(full[:len(q)+e.off], false); !ok && !soft {
 				hard = true
 				if ai == 0 {
